@@ -1808,7 +1808,7 @@ class BlockAggregateSegment(DataSegment):
                     parent_subscript.append(par_entry)
                     child_subscript.append(child_entry)
             if use_block:
-                out[tuple(parent_subscript)] = child.read_raw(tuple(child_subscript), squeeze=False)
+                out[tuple(parent_subscript)] = child.read(tuple(child_subscript), squeeze=False)
 
         if squeeze:
             return numpy.squeeze(out)
